@@ -152,6 +152,28 @@ class G:
         if r.chance(1, 3):
             m.suffixes.append({'name': 'prob1', 'kind': 3, 'float': False, 'vals': {0: 7}})
 
+    def add_start(self, m, what=None, basis=None):
+        """incoming start values and basis (what AMPL sends when a solved problem is solved again):
+        what in 'x' | 'd' | 'xd' | '' (initial primal / dual values), basis in 'none' | 'var' | 'con' | 'both'
+        (.sstatus suffixes on variables / constraints).  Returns (what, basis)."""
+        r = self.r
+        if what is None:
+            what = r.choice(['x', 'd', 'xd', 'xd', 'xd', ''])
+        if basis is None:
+            basis = r.choice(['none', 'none', 'var', 'con', 'both', 'both'])
+        n, k = len(m.vars), len(m.cons)
+        if 'x' in what:
+            full = r.chance(2, 3)
+            m.x0 = {j: dy(r, -3, 6) for j in range(n) if full or r.chance(1, 2)} or {0: F(1)}
+        if 'd' in what and k:
+            full = r.chance(2, 3)
+            m.pi0 = {i: dy(r, -4, 4) for i in range(k) if full or r.chance(1, 2)} or {0: F(1, 2)}
+        if basis in ('var', 'both'):
+            m.suffixes.append({'name': 'sstatus', 'kind': 0, 'float': False, 'vals': {j: r.rint(1, 6) for j in range(n)}})
+        if basis in ('con', 'both') and k:
+            m.suffixes.append({'name': 'sstatus', 'kind': 1, 'float': False, 'vals': {i: r.rint(1, 6) for i in range(k)}})
+        return what, basis
+
     def model_lp(self):
         m = Model()
         self.base_vars(m)
